@@ -2033,6 +2033,23 @@ class Engine:
                 if table.arr.sort().range() == specs.CSeq:
                     return VDom(table.arr, toz(table.length), it.term)
                 return VSeq(specs.imapsub(it.term, table.arr, toz(table.length)))
+        if isinstance(it, VPairs) and isinstance(g.target, ast.Tuple) and len(g.target.elts) == 2 \
+                and all(isinstance(x, ast.Name) for x in g.target.elts):
+            # [f(u, v) for u, v in pairs]: evaluated once for a generic position
+            t = self.fresh('pos_pair')
+            e2 = dict(env)
+            e2[g.target.elts[0].id] = sel(it.first, t)
+            e2[g.target.elts[1].id] = sel(it.second, t)
+            saved = len(self.pc)
+            self.pc.append(z3.And(t >= 0, t < toz(it.length)))
+            try:
+                body = self.eval(e.elt, e2)
+            finally:
+                del self.pc[saved:]
+            if is_z3(body) and z3.is_int(body):
+                tc = z3.Int('lam!j')
+                return VArr(it.length, z3.Lambda([tc], z3.substitute(body, (t, tc))))
+            raise Unsupported('comprehension over pairs with a non-int element')
         if isinstance(it, VArr) and isinstance(g.target, ast.Name) and it.arr.sort().range() == z3.IntSort():
             t = self.fresh('pos_' + g.target.id)
             e2 = dict(env)
@@ -2883,6 +2900,7 @@ def sf_trace(eng, node, v):
 
 
 SPEC_FUNCS = {
+    'pairsof': lambda eng, node, A, B, n: VPairs(toz(n), as_arr(A).arr, as_arr(B).arr),
     'lam1': sf_lam1,
     'nbrs': _wrap(specs.nbrs), 'evar': _wrap(specs.evar), 'iofarr': lambda eng, node, A, n: VSeq(specs.iofarr(as_arr(A).arr, toz(n))),
     'liftcls': _wrap(specs.liftcls), 'liftsem': _wrap(specs.liftsem), 'yblock': _wrap(specs.yblock),
